@@ -11,7 +11,7 @@
 (* Type prefixes: D Date, T Time, TS Timestamp, YM IntervalYM,             *)
 (* DT IntervalDT, OD OracleDate.                                           *)
 (***************************************************************************)
-EXTENDS Units, Val, Scale, Render, TLC
+EXTENDS Units, Val, Scale, Spell, TLC
 
 (* ------------------------- result shapes ------------------------------- *)
 ResDate(r, n)  == IF InDateRange(n) THEN IsOk(r, n) ELSE IsErr(r)
@@ -128,6 +128,29 @@ AgreeFloor(rt, ro) ==
   /\ rt[1] = ro[1]
   /\ rt[1] = 0 => ro[2] = <<rt[2][1], rt[2][2], 0>>
 
+TypeOfJsonOp(op) ==
+  CASE op = "D.json" -> "D" [] op = "T.json" -> "T" [] op = "TS.json" -> "TS"
+    [] op = "YM.json" -> "YM" [] op = "DT.json" -> "DT" [] op = "OD.json" -> "OD"
+TypeOfBinOp(op) ==
+  CASE op = "D.bin" -> "D" [] op = "T.bin" -> "T" [] op = "TS.bin" -> "TS"
+    [] op = "YM.bin" -> "YM" [] op = "DT.bin" -> "DT" [] op = "OD.bin" -> "OD"
+TypeOfUnbinOp(op) ==
+  CASE op = "D.unbin" -> "D" [] op = "T.unbin" -> "T" [] op = "TS.unbin" -> "TS"
+    [] op = "YM.unbin" -> "YM" [] op = "DT.unbin" -> "DT" [] op = "OD.unbin" -> "OD"
+\* the fixed human-readable layouts
+FixedPic(ty) ==
+  CASE ty = "D" -> Chars("YYYY-MM-DD") [] ty = "T" -> Chars("HH24:MI:SS.FF6")
+    [] ty = "TS" -> Chars("YYYY-MM-DD HH24:MI:SS.FF6") [] ty = "YM" -> Chars("YYYY-MM")
+    [] ty = "DT" -> Chars("DD HH24:MI:SS.FF6") [] ty = "OD" -> Chars("YYYY-MM-DD HH24:MI:SS")
+\* the compact binary payload: the raw day / month / microsecond count (counts of
+\* microseconds in mixed radix; a Time's count has day digit 0)
+RawOf(ty, v) == IF ty = "T" THEN <<0, v[1], v[2]>> ELSE v
+RawInRange(ty, raw) ==
+  CASE ty = "D" -> InDateRange(raw) [] ty = "YM" -> YmInRange(raw)
+    [] ty = "T" -> raw[1] = 0 [] ty = "TS" -> TsInRange(raw) [] ty = "OD" -> OdInRange(raw) [] ty = "DT" -> DtInRange(raw)
+TypeOfRoundtripOp(op) ==
+  CASE op = "D.roundtrip" -> "D" [] op = "T.roundtrip" -> "T" [] op = "TS.roundtrip" -> "TS"
+    [] op = "YM.roundtrip" -> "YM" [] op = "DT.roundtrip" -> "DT" [] op = "OD.roundtrip" -> "OD"
 TypeOfFormatOp(op) ==
   CASE op = "D.format" -> "D" [] op = "T.format" -> "T" [] op = "TS.format" -> "TS"
     [] op = "YM.format" -> "YM" [] op = "DT.format" -> "DT" [] op = "OD.format" -> "OD"
@@ -302,6 +325,24 @@ OpOK(op, a, r) ==
         IF Unjudged(a[2]) THEN r[1] \in {0, 1}
         ELSE LET e == FormatRes(a[2], TypeOfFormatOp(op), a[1]) IN
              IF e[1] = 0 THEN IsOk(r, e[2]) ELSE IsErr(r)
+  (* ---- serialization (C15) ---- *)
+  [] op \in {"D.json", "T.json", "TS.json", "YM.json", "DT.json", "OD.json"} ->
+        LET ty == TypeOfJsonOp(op) IN r = RenderTokens(Lex(FixedPic(ty)), ty, a[1])
+  [] op \in {"D.bin", "T.bin", "TS.bin", "YM.bin", "DT.bin", "OD.bin"} ->
+        LET ty == TypeOfBinOp(op) IN
+        r[1] = 0 /\ r[2] = <<IF ty \in {"D", "YM"} THEN 4 ELSE 8, RawOf(ty, a[1]), <<0, a[1]>> >>
+  [] op \in {"D.unbin", "T.unbin", "TS.unbin", "YM.unbin", "DT.unbin", "OD.unbin"} ->
+        LET ty == TypeOfUnbinOp(op) IN
+        IF RawInRange(ty, a[1]) THEN IsOk(r, a[1]) ELSE IsErr(r)
+  (* ---- format -> parse -> format with the same picture (C06) ---- *)
+  [] op \in {"D.roundtrip", "T.roundtrip", "TS.roundtrip", "YM.roundtrip", "DT.roundtrip", "OD.roundtrip"} ->
+        r[1] = 0 /\
+        LET ty == TypeOfRoundtripOp(op)  toks == Lex(a[2])  p == r[2] IN
+        IF ~IsInvalid(toks) /\ Lossless(toks, ty) THEN
+             /\ p[1] = RenderTokens(toks, ty, a[1])          \* the text is what the picture says
+             /\ p[2] = <<0, a[1]>>                           \* parsing it yields the original value
+             /\ p[3] = p[1]                                  \* and formatting that reproduces the text
+        ELSE \A q \in 1..Len(p) : p[q][1] # 2              \* otherwise only: no panic
   (* ---- vector form: one first argument, many second arguments ---- *)
   [] op = "VEC" -> r[1] = 0 /\ Len(r[2]) = Len(a[3]) /\
                    \A j \in 1..Len(a[3]) : OpOK(a[1], <<a[2], a[3][j]>>, r[2][j])
